@@ -635,6 +635,35 @@ func makeKey(name string) any {
 	return k
 }
 
+// an EC key whose private scalar starts with lz zero octets (one key in 256^lz does): producers that write the scalar as a
+// minimal integer (older OpenSSL, Java) then store it shorter than the field size
+func makeKeyLeadingZero(name string, lz int) any {
+	c := ecv.ByName(name)
+	if c == nil {
+		return makeKey(name)
+	}
+	max := new(big.Int).Lsh(big.NewInt(1), uint(8*(c.ByteLen-lz)))
+	d, _ := crand.Int(crand.Reader, new(big.Int).Sub(max, big.NewInt(1)))
+	d.Add(d, big.NewInt(1))
+	if strings.HasPrefix(name, "brainpool") {
+		x, y := c.ScalarBase(d)
+		return &rawECKey{c, d, x, y}
+	}
+	var cv elliptic.Curve
+	switch name {
+	case "P-224":
+		cv = elliptic.P224()
+	case "P-384":
+		cv = elliptic.P384()
+	case "P-521":
+		cv = elliptic.P521()
+	default:
+		cv = elliptic.P256()
+	}
+	x, y := cv.ScalarBaseMult(d.Bytes())
+	return &ecdsa.PrivateKey{PublicKey: ecdsa.PublicKey{Curve: cv, X: x, Y: y}, D: d}
+}
+
 func rawName(cn, strType string) []byte {
 	tag := map[string]int{"utf8": 12, "ia5": 22, "t61": 20, "printable": 19}[strType]
 	type atv struct {
@@ -713,6 +742,12 @@ func marshalPKCS8Variant(key any, variant string) []byte {
 	pt := append([]byte{4}, append(x.FillBytes(make([]byte, blen)), y.FillBytes(make([]byte, blen))...)...)
 	nlen := blen
 	inner := ecPriv{Version: 1, D: d.FillBytes(make([]byte, nlen)), Pub: asn1.BitString{Bytes: pt, BitLength: len(pt) * 8}}
+	if strings.HasPrefix(variant, "short-scalar") {
+		inner.D = d.Bytes() // minimal: the leading zero octets are left out
+		if variant == "short-scalar-no-point" {
+			inner.Pub = asn1.BitString{}
+		}
+	}
 	if variant == "embedded-curve" || variant == "no-algid-params" {
 		inner.Curve = curveOID
 	}
@@ -744,7 +779,15 @@ func makeFixture(m *genMake, keys map[string]any) []byte {
 		}
 	}
 	if key == nil {
-		key = makeKey(m.Key)
+		if strings.HasPrefix(m.Variant, "short-scalar") {
+			lz := 1
+			if m.Variant == "short-scalar-no-point" {
+				lz = 2
+			}
+			key = makeKeyLeadingZero(m.Key, lz)
+		} else {
+			key = makeKey(m.Key)
+		}
 		if m.KeyId != "" {
 			keys[m.KeyId] = key
 		}
